@@ -411,15 +411,18 @@ impl ChainStorage for ZarrAsyncChainStorage {
     ) -> Result<()> {
         let is_first_draw = self.last_sample_was_warmup && !info.tuning;
         if is_first_draw {
-            {
-                let mut seen = std::collections::HashSet::new();
-                for (field, dim) in &self.event_dim_of_stat {
-                    if seen.insert(dim.as_str()) {
-                        if let Some(buf) = self.stats_buffers.get(field.as_str()) {
-                            self.warmup_event_counts
-                                .insert(dim.clone(), buf.total_pushed());
-                        }
-                    }
+            // The number of events of a dimension is the largest count of any of its
+            // fields: fields that are never populated (e.g. `divergence_momentum`
+            // without `store_divergences`) stay at zero.
+            for (field, dim) in &self.event_dim_of_stat {
+                if let Some(buf) = self.stats_buffers.get(field.as_str()) {
+                    let prev = self
+                        .warmup_event_counts
+                        .get(dim.as_str())
+                        .copied()
+                        .unwrap_or(0);
+                    self.warmup_event_counts
+                        .insert(dim.clone(), prev.max(buf.total_pushed()));
                 }
             }
             for (key, buffer) in self.draw_buffers.iter_mut() {
@@ -473,13 +476,11 @@ impl ChainStorage for ZarrAsyncChainStorage {
     /// Flush remaining samples and finalize storage, joining all pending writes
     fn finalize(self) -> Result<Self::Finalized> {
         // Collect sample counts before consuming stats_buffers
-        let mut seen = std::collections::HashSet::new();
         let mut sample_counts: HashMap<String, u64> = HashMap::new();
         for (field, dim) in &self.event_dim_of_stat {
-            if seen.insert(dim.as_str()) {
-                if let Some(buf) = self.stats_buffers.get(field.as_str()) {
-                    sample_counts.insert(dim.clone(), buf.total_pushed());
-                }
+            if let Some(buf) = self.stats_buffers.get(field.as_str()) {
+                let prev = sample_counts.get(dim.as_str()).copied().unwrap_or(0);
+                sample_counts.insert(dim.clone(), prev.max(buf.total_pushed()));
             }
         }
 
@@ -537,22 +538,20 @@ impl ChainStorage for ZarrAsyncChainStorage {
     }
 
     fn inspect(&self) -> Result<Option<Self::Finalized>> {
-        let mut seen = std::collections::HashSet::new();
-        let mut counts = HashMap::new();
+        let mut counts: HashMap<String, (u64, u64)> = HashMap::new();
         for (field, dim) in &self.event_dim_of_stat {
-            if seen.insert(dim.as_str()) {
-                let s = self
-                    .stats_buffers
-                    .get(field.as_str())
-                    .map(|b| b.total_pushed())
-                    .unwrap_or(0);
-                let w = self
-                    .warmup_event_counts
-                    .get(dim.as_str())
-                    .copied()
-                    .unwrap_or(0);
-                counts.insert(dim.clone(), (w, s));
-            }
+            let s = self
+                .stats_buffers
+                .get(field.as_str())
+                .map(|b| b.total_pushed())
+                .unwrap_or(0);
+            let w = self
+                .warmup_event_counts
+                .get(dim.as_str())
+                .copied()
+                .unwrap_or(0);
+            let prev = counts.get(dim.as_str()).map(|c| c.1).unwrap_or(0);
+            counts.insert(dim.clone(), (w, prev.max(s)));
         }
         Ok(Some(counts))
     }
